@@ -12,6 +12,10 @@ regex; globbed files are recorded (patterns without repeated names); incremental
 scan after the change set was applied to the real tree; a repeated name binds equal substrings
 (checked by substituting the bound text back into the pattern); an anonymous `*` and a fresh named
 wildcard accept and record the same paths.
+Workflow level: 2-3 steps register overlapping, identical and disjoint patterns through the real
+`Workflow.register_nglob`, the real tree changes, then `startup.rescan_nglobs` (restart) or
+`Workflow.process_nglob_changes` (watcher) runs; every registration persisted in the database must
+equal a fresh scan and exactly the steps whose match sets changed must be pending.
 """
 
 from __future__ import annotations
@@ -886,6 +890,186 @@ async def witness_workflow_newline() -> bool:
             return bool(wf.matches_any_glob("d/a\nb")) and bool(wf.matches_any_glob("d/ok.txt"))
 
 
+# ---------------------------------------------------------------------------------------------
+# Workflow level: registrations persisted in the database, restart rescan and watcher update
+# ---------------------------------------------------------------------------------------------
+
+SIG_RESCAN = "nglob-rescan-stale-registration"
+SIG_WATCH = "nglob-watch-stale-registration"
+SIG_PENDING = "nglob-registration-pending-mismatch"
+
+
+STATS_HOOK: list = []
+
+
+class _SilentReporter:
+    async def __call__(self, *args, **kwargs):
+        pass
+
+
+def _related_patterns(r, entries) -> list[tuple[str, dict]]:
+    """2-5 (pattern, subs) for the registrations of one scenario: identical, overlapping
+    (one generalises the other) and disjoint patterns, derived from paths of the tree."""
+    paths = list(entries.items())
+    out: list[tuple[str, dict]] = []
+    want = r.randint(2, 5)
+    tries = 0
+    while len(out) < want and tries < 40:
+        tries += 1
+        k = r.random()
+        if out and k < 0.25:
+            out.append(r.choice(out))  # identical pattern, registered again
+            continue
+        if out and k < 0.5:
+            base, subs = r.choice(out)
+            comps = base.split("/")
+            i = r.randrange(len(comps))
+            comps[i] = r.choice(["*", "**", comps[i] + "*", "?*"]) if comps[i] != "**" else "**"
+            pat = "/".join(comps)
+            subs = dict(subs)
+        elif k < 0.62:
+            pat, subs = r.choice(["**", "*", "*/*", "**/*", "*/**"]), {}
+        elif paths:
+            comps, isdir = r.choice(paths)
+            pat = pattern_from_path(r, comps, isdir)
+            subs = gen_subs(r, pat, False)
+        else:
+            pat, subs = random_pattern(r, False), {}
+        try:
+            with warnings.catch_warnings():
+                warnings.simplefilter("ignore")
+                ng = NamedGlob(pat, dict(subs))
+            if not glob_wellformed(ng._glob_pattern) or pat.startswith(".stepup"):
+                continue
+        except (ValueError, re.error):
+            continue
+        out.append((pat, subs))
+    return out
+
+
+def _scan(pat, subs) -> NamedGlob:
+    ng = NamedGlob(pat, dict(subs))
+    ng.glob()
+    return ng
+
+
+async def workflow_scenario(r, exotic: bool, mode: str) -> list[tuple[str, str, dict]]:
+    """One generated scenario, see `run_workflow_scenario`."""
+    entries = {p: d for p, d in gen_tree(r, exotic).items() if p[0] != ".stepup"}
+    entries2 = mutate_tree(r, entries, exotic)
+    pats = _related_patterns(r, entries)
+    if len(pats) < 2:
+        return []
+    nsteps = r.randint(2, 3)
+    owner = [i % nsteps if i < nsteps else r.randrange(nsteps) for i in range(len(pats))]
+    return await run_workflow_scenario(entries, entries2, pats, owner, nsteps, mode)
+
+
+async def run_workflow_scenario(entries, entries2, pats, owner, nsteps, mode) -> list[tuple[str, str, dict]]:
+    """Register the patterns through the real `Workflow.register_nglob` (steps `owner[i]`), let the
+    steps succeed, change the real tree, run `startup.rescan_nglobs` (mode `rescan`: the director
+    restarts) or `Workflow.process_nglob_changes` with the exact change lists (mode `watch`), then
+    compare every persisted registration with a fresh `NamedGlob(...).glob()` and the step states
+    with "pending iff a match set of the step changed".  Returns (signature, what, detail)."""
+    from stepup.core.enums import StepState
+    from stepup.core.hash import StepHash
+    from stepup.core.startup import rescan_nglobs
+
+    problems: list[tuple[str, str, dict]] = []
+    paths1, paths2 = set(tree_paths(entries)), set(tree_paths(entries2))
+    tree = RealTree(entries)
+    try:
+        async with implkit.workflow() as wf:
+            steps = []
+            regs = []  # (step index, pattern, subs, files at registration)
+            async with wf.db:
+                wf.define_step(wf.root, "./plan.py", need=implkit.Need.PLAN)
+                plan = wf.find(implkit.Step, "./plan.py")
+                for i in range(nsteps):
+                    wf.define_step(plan, f"./work{i}.py")
+                    steps.append(wf.find(implkit.Step, f"./work{i}.py"))
+                for (pat, subs), si in zip(pats, owner):
+                    ng = _scan(pat, subs)
+                    try:
+                        wf.register_nglob(steps[si], ng)
+                    except Exception:
+                        continue
+                    regs.append((si, pat, subs, [str(p) for p in ng.files()]))
+                for st in steps:
+                    st.mark_completed(StepHash(b"ok", None, b"inp_ok", None), False)
+                    if st.get_state() != StepState.SUCCEEDED:
+                        return []
+            if len(regs) < 2:
+                return []
+            tree.apply(entries2)
+            deleted, updated = paths1 - paths2, paths2 - paths1
+            if mode == "rescan":
+                await asyncio.wait_for(rescan_nglobs(wf, _SilentReporter()), 60)
+            else:
+                async with wf.db:
+                    wf.process_nglob_changes(deleted, updated)
+            async with wf.db:
+                stored: dict[int, list] = {}
+                for _i, ng, step in wf.nglob_registrations():
+                    stored.setdefault(step.i, []).append((ng.pattern, dict(ng.subs), ng))
+                states = {st.i: st.get_state() for st in steps}
+            detail0 = {"mode": mode, "nsteps": nsteps, "tree": sorted(paths1), "tree_after": sorted(paths2),
+                       "registrations": [{"step": f"./work{si}.py", "pattern": pat, "subs": subs, "recorded_before": fl}
+                                         for si, pat, subs, fl in regs]}
+            changed_steps = set()
+            for si, pat, subs, before in regs:
+                st = steps[si]
+                fresh = _scan(pat, subs)
+                cands = [ng for (p2, s2, ng) in stored.get(st.i, []) if p2 == pat and s2 == dict(subs)]
+                if fresh.results != _scan_list(pat, subs, before).results:
+                    changed_steps.add(si)
+                if not cands:
+                    problems.append((SIG_RESCAN if mode == "rescan" else SIG_WATCH,
+                                     f"registration of {pat!r} by ./work{si}.py is missing from the database", detail0))
+                    continue
+                bad = [ng for ng in cands if ng.results != fresh.results]
+                if not bad:
+                    continue
+                got = bad[0]
+                got_s, fresh_s = {str(p) for p in got.files()}, {str(p) for p in fresh.files()}
+                detail = dict(detail0, step=f"./work{si}.py", pattern=pat, subs=subs,
+                              stored=show_plain(got.results), fresh=show_plain(fresh.results))
+                if mode == "watch":
+                    # the watcher update decides by the regex alone: a path the regex over-accepts (known classes)
+                    over = {q: classify_overaccept(fresh, pat, q) for q in got_s - fresh_s if q in paths2}
+                    if not (fresh_s - got_s) and over and len(over) == len(got_s - fresh_s) and all(over.values()):
+                        for sig in sorted(set(over.values())):
+                            problems.append((sig, f"process_nglob_changes stores {sorted(q for q, v in over.items() if v == sig)!r} "
+                                             f"for {pat!r} (accepted by the regex {fresh._regex.pattern!r}); a fresh scan does not "
+                                             f"record them", detail))
+                        changed_steps.add(si) if got.results != _scan_list(pat, subs, before).results else None
+                        continue
+                    if not (fresh_s - got_s) and (got_s - fresh_s) and _expected_incomplete(pat, subs, None):
+                        continue
+                problems.append((SIG_RESCAN if mode == "rescan" else SIG_WATCH,
+                                 f"after {'rescan_nglobs' if mode == 'rescan' else 'process_nglob_changes'} the database holds "
+                                 f"{sorted(got_s)!r} for {pat!r} of ./work{si}.py, a fresh scan gives {sorted(fresh_s)!r}", detail))
+            STATS_HOOK.append((mode, len(regs), len(changed_steps), len({(p_, tuple(sorted(s_.items()))) for _, p_, s_, _ in regs}) < len(regs)))
+            if not problems:
+                for si, st in enumerate(steps):
+                    if not any(r0[0] == si for r0 in regs):
+                        continue
+                    want = StepState.PENDING if si in changed_steps else StepState.SUCCEEDED
+                    if states[st.i] != want:
+                        problems.append((SIG_PENDING, f"./work{si}.py is {states[st.i].name}, expected {want.name}: its match "
+                                         f"sets {'changed' if si in changed_steps else 'did not change'}",
+                                         dict(detail0, step=f"./work{si}.py")))
+    finally:
+        tree.close()
+    return problems
+
+
+def _scan_list(pat, subs, paths) -> NamedGlob:
+    ng = NamedGlob(pat, dict(subs))
+    ng.extend(paths)
+    return ng
+
+
 # deviation classes that the main generator is known to reach and that are *not* new defects:
 # they are consequences of the two documented findings or of documented limits of the model
 def _expected_incomplete(pattern: str, subs: dict, missing) -> str | None:
@@ -930,7 +1114,27 @@ async def search(ctx):
                     {"witness": "matches_any_glob", "pattern": "d/**", "path": "d/a\nb"})
     except Exception as exc:  # pragma: no cover
         ctx.stats.count("oracle:workflow-witness-error:" + type(exc).__name__)
-    # 2. generated cases
+    # 2. workflow level: persisted registrations after a restart rescan and after a watcher update
+    rw = ctx.rng("workflow")
+    for i in range(ctx.budget(240, 4000)):
+        mode = "rescan" if i % 2 == 0 else "watch"
+        try:
+            probs = await asyncio.wait_for(workflow_scenario(rw, exotic=(i % 7 == 6), mode=mode), 120)
+        except asyncio.TimeoutError:
+            probs = [("nglob-workflow-hang", f"workflow scenario {i} ({mode}) did not finish", {"_unexpected": True})]
+        ctx.stats.count("oracle:workflow-" + mode)
+        while STATS_HOOK:
+            m, nreg, nchanged, dup = STATS_HOOK.pop()
+            ctx.stats.count(f"oracle:workflow-{m}:{'changed' if nchanged else 'unchanged'}")
+            if dup:
+                ctx.stats.count(f"oracle:workflow-{m}:identical-patterns")
+            if nchanged >= 2:
+                ctx.stats.count(f"oracle:workflow-{m}:several-steps-changed")
+        for sig, what, detail in probs:
+            if sig not in DOCUMENTED:
+                detail = dict(detail, _unexpected=True)
+            _report(ctx, sig, what, detail)
+    # 3. generated cases
     jobs = await workload(ctx)
     r = ctx.rng("oracle")
     for job in jobs:
@@ -1048,6 +1252,15 @@ async def replay(ctx, detail):
     if sig in (SIG_NEGCLASS, SIG_RECBASE, SIG_BREFEMPTY, SIG_WILDRUN) and d.get("witness"):
         obs = witness_overaccept(d["pattern"], d["tree"], d["path"])
         return {"reproduced": obs["accepted"] and not obs["recorded"], **obs}
+    if "registrations" in d and "tree_after" in d:
+        def ent(lst):
+            return {tuple(p.rstrip("/").split("/")): p.endswith("/") for p in lst}
+        regs = d["registrations"]
+        pats = [(x["pattern"], dict(x["subs"])) for x in regs]
+        owner = [int(re.sub(r"\D", "", x["step"])) for x in regs]
+        probs = await run_workflow_scenario(ent(d["tree"]), ent(d["tree_after"]), pats, owner,
+                                            int(d.get("nsteps", max(owner) + 1)), d.get("mode", "rescan"))
+        return {"reproduced": any(s_ == sig for s_, _, _ in probs), "observed": [(s_, w) for s_, w, _ in probs]}
     if "pattern" in d and "tree" in d:
         entries = {}
         for p in d["tree"]:
